@@ -209,7 +209,11 @@ func (llb *Buffer) ReadFrom(r io.Reader) (n int64, err error) {
 		n += int64(m)
 		b = b[:m]
 		// Callers of io.Reader must process the m > 0 bytes returned before considering the error.
-		llb.pushBack(&node{buf: b})
+		if m > 0 {
+			llb.pushBack(&node{buf: b})
+		} else {
+			bsPool.Put(b)
+		}
 		if err == io.EOF {
 			return n, nil
 		}
